@@ -196,7 +196,8 @@ def number_args(rng, n):
         return b"%d" % rng.choice([2 ** 31 - 1, 2 ** 31, 2 ** 31 + 1, 2 ** 32, 2 ** 32 + 1, 999999999, 1000000000,
                                    9999999999, 2 ** 63, 2 ** 63 + 1, 2 ** 64 - 1, 10 ** 19])
     if k < 78:
-        return b"%d" % (rng.choice([1, 1, 2, 3, 5]) * U64 + rng.randint(0, max(1, n)))
+        # numbers that alias a valid one when kept in too narrow a type (16, 32 or 64 bits)
+        return b"%d" % (rng.choice([1, 1, 2, 3, 5]) * rng.choice([U64, U64, U64, 1 << 32, 1 << 32, 1 << 31, 1 << 16, 1 << 63]) + rng.randint(0, max(1, n)))
     if k < 82:
         return b"%d" % (rng.randrange(10 ** 19, 10 ** rng.randint(20, 40)))
     if k < 90:
